@@ -483,6 +483,8 @@ ENU = "amaranth/lib/enum.py"
 LIO = "amaranth/lib/io.py"
 M("c14-flipped-getitem-noflip", ["C14"], WIR, "        return self.__unflipped.__getitem__(name).flip()", "        return self.__unflipped.__getitem__(name)", "R-14a")
 M("c14-flipped-setitem-noflip", ["C14"], WIR, "        self.__unflipped.__setitem__(name, member.flip())", "        self.__unflipped.__setitem__(name, member)", "R-14a")
+M("c14-connect-out-classified-as-in", ["C14"], WIR, '                if member.flow == Out:\n                    out_kind.append(', '                if member.flow == In:\n                    out_kind.append(', "R-14b")
+M("c14-connect-signature-classified-as-port", ["C14"], WIR, '            if member.is_port:\n                if member.flow == Out:\n                    out_kind.append(', '            if True:\n                if member.flow == Out:\n                    out_kind.append(', "R-14b")
 M("c14-member-signature-flips-out", ["C14"], WIR, "        if self.flow == Out:\n            return self._description\n        if self.flow == In:\n            return self._description.flip()",
   "        if self.flow == In:\n            return self._description\n        if self.flow == Out:\n            return self._description.flip()", "R-14a")
 M("c14-connect-eq-reversed", ["C14"], WIR, "                    eq = in_value.eq\n", "                    eq = out_value.eq\n", "R-14b")
